@@ -34,6 +34,14 @@ class Spec(object):
         self.any_effects_after = False          # allow arbitrary further effects (used with assumed callees)
 
 
+class _Deleted(object):
+    def __repr__(self):
+        return '<deleted>'
+
+
+DELETED = _Deleted()
+
+
 class Any(object):
     """wildcard in an expected effect tuple / return value"""
 
@@ -363,6 +371,8 @@ def compare(it, sp, pre_snap, roots, eff0, outcome, prefix):
             if (cid, k) in hav:
                 continue
             exp = upd.get((cid, k), fields.get(k, _MISSING))
+            if exp is DELETED:
+                exp = _MISSING
             got = now.get(k, _MISSING)
             w = describe(cont, k)
             if exp is _MISSING or got is _MISSING:
@@ -620,6 +630,9 @@ class Sim(object):
 
     def dont_care(self, cont, key):
         self.havoc.append((cont, key))
+
+    def delete(self, cont, key):
+        self.w[(id(cont), key)] = (cont, key, DELETED)
 
     def dont_care_all(self, container):
         """the whole content of a container (dict / list / object) is unconstrained"""
